@@ -699,6 +699,9 @@ func init() {
 		"strings.Join": strings.Join, "strings.Fields": strings.Fields, "strings.SplitN": strings.SplitN, "strings.Title": strings.Title,
 		"strings.Trim": strings.Trim, "strings.TrimLeft": strings.TrimLeft, "strings.TrimRight": strings.TrimRight,
 		"strconv.Quote": strconv.Quote, "strconv.FormatInt": strconv.FormatInt,
+		"strings.Cut": strings.Cut, "strings.CutPrefix": strings.CutPrefix, "strings.CutSuffix": strings.CutSuffix,
+		"strings.LastIndexByte": strings.LastIndexByte, "strings.IndexAny": strings.IndexAny, "strings.ContainsAny": strings.ContainsAny,
+		"strings.SplitAfter": strings.SplitAfter, "strings.ToTitle": strings.ToTitle, "strings.Replace": strings.Replace,
 	} {
 		f := f
 		name := name
